@@ -63,9 +63,31 @@ ClassifyFrom(lg, r, i, o) == Judge(lg, r, o, DVerdictFrom(lg, r, i, FALSE), DVer
 Agree(full, latest) == OkOrFail(full.res) = "ok" => OkOrFail(latest.res) = "ok"
 
 None == [res |-> "none", tip |-> 0]
+\* C19: the mergeability answer and what verification said for every recorder
+C19Side(lg) == HasEntries(lg, "main") /\ LatestUnskippedFor(lg, "main") = LatestFor(lg, "main")
+ClassifyMerge(lg, tree, m) ==
+    IF ~C19Side(lg) THEN [cls |-> "conform"]                       \* outside the statement's side conditions
+    ELSE IF m.answer \in {"panic", "error"} THEN [cls |-> "violation", why |-> m.answer]
+    ELSE LET ExplainedBy(d) == /\ m.answer = MergePredictI(lg, "main", tree, d)
+                               /\ \A s \in Recorders : m.verifies[s] = MergeVerifies(lg, "main", tree, s, d) IN
+         IF MergeAgrees(lg, "main", tree, m.answer, LAMBDA s : m.verifies[s])
+         THEN IF ExplainedBy(AsBuilt) \/ ExplainedBy({}) THEN [cls |-> "conform"] ELSE [cls |-> "safe", why |-> "differs from the model"]
+         ELSE LET S == {x \in SUBSET AsBuilt : x \cap Known # {} /\ ExplainedBy(x)} IN
+              IF S # {} THEN [cls |-> "known", dev |-> CHOOSE x \in S : \A y \in S : Cardinality(x) <= Cardinality(y)]
+              ELSE [cls |-> "violation", why |-> "mergeability answer disagrees with verification of the recorded merge"]
+Worst(set) == IF \E x \in set : x.cls = "violation" THEN CHOOSE x \in set : x.cls = "violation"
+              ELSE IF \E x \in set : x.cls = "known" THEN CHOOSE x \in set : x.cls = "known"
+              ELSE IF \E x \in set : x.cls = "safe" THEN CHOOSE x \in set : x.cls = "safe"
+              ELSE [cls |-> "conform"]
+
 StrToNat(str) == CHOOSE n \in 1..99 : ToString(n) = str
 Classify(line) ==
     LET lg == Log(line.scn) IN
+    IF Prop = "C19" THEN
+        [r \in {"main"} |-> IF "merge" \in DOMAIN line.obs
+                            THEN Worst({ClassifyMerge(lg, StrToNat(t), line.obs.merge[t]) : t \in DOMAIN line.obs.merge})
+                            ELSE [cls |-> "conform"]]
+    ELSE
     [r \in DOMAIN line.obs.full |->
         LET full == ClassifyRef(lg, r, line.obs.full[r], IF "twin" \in DOMAIN line.obs /\ r \in DOMAIN line.obs.twin THEN line.obs.twin[r] ELSE None) IN
         IF Prop # "C02" \/ r \notin DOMAIN line.obs.latest THEN full
